@@ -9,6 +9,7 @@ import ScVerif.C12.PumpTrace
 import ScVerif.C12.Served
 import ScVerif.C12.Naming
 import ScVerif.C12.Wrapped
+import ScVerif.C12.WrapMore
 /-!
 Driver handler for C12: parses one request line, runs the model, prints the canonical answer.
 
@@ -29,7 +30,9 @@ srv   <default> <fb> <fac> <ops> <method> S <transport> <m0> <wire> <childscript
 ```
 gen   <dir> <file> <service>                              what the two generators emit for a service (path type path type)
 wroute <fb> <fac> <ops> <name> <method> <req> <stagedHdr> <stagedTrailer> <devicescript> <reuse r|f> <callerscript>   a stream call routed to a wrapped server (inner router + device)
-wcall <method> <req> <stagedHdr> <sentHdr> <stagedTrailer> <out>   a unary call on a wrapper with grpc.Header / grpc.Trailer
+wcall <method> <req> <stagedHdr> <sentHdr> <stagedTrailer> <out> <opts>   a unary call on a wrapper with call options `h<var>` grpc.Header(&var) / `t<var>` grpc.Trailer(&var) / `o` other, separated by `.`; answers the variables
+wcallc <method> <req> <stagedHdr> <sentHdr> <stagedTrailer> <opts> <ce>   the same call, the device parked (after staging / sending its header) when the caller's context ends with error `ce` (1 cancelled, 2 deadline)
+wcancel <fb> <fac> <ops> <name> <method> <req> <stagedHdr> <stagedTrailer> <devicescript> <reuse r|f> <park h|r<k>> <ce>   a stream call routed to a wrapped server whose device parks (in Header() / in the Recv after k messages) until the caller cancels
 Transports: `ow` overwrite, `mg` merge, `f<e>` fail, `of<e>` overwrite then fail; `<m0>` = `z` is the zero message.
 Callback kinds (shared with the Go harness, `callbackOf`): `has get rm add sib mix undo`.
 Factory kinds (shared with the Go harness): `none new err nil both pfx odd`; the fallback makes
@@ -155,6 +158,34 @@ def showWObs (o : Obs) : String :=
     " sent=" ++ commaList (o.sent.map toString) ++ " sends=" ++ toString o.sends ++
     " tr=" ++ (match o.trailer with | none => "-" | some t => showMDList (decLF 30 t)) ++
     " st=" ++ showOptNat o.status
+
+/-- `showWObs` for a cancelled call: a nil header offered to the caller prints as empty metadata (`-`). -/
+def showCObs (o : Obs) : String :=
+  "calls=" ++ showCalls o.calls ++
+    " hdr=" ++ (match o.header with
+      | none => "none" | some none => "-" | some (some h) => showMDList (decLF 30 h)) ++
+    " sent=" ++ commaList (o.sent.map toString) ++ " sends=" ++ toString o.sends ++
+    " tr=" ++ (match o.trailer with | none => "-" | some t => showMDList (decLF 30 t)) ++
+    " st=" ++ showOptNat o.status
+
+def parseCOpts? (s : String) : Option (List COpt) :=
+  (splitList s ".").mapM fun t =>
+    if t = "o" then some .other
+    else if t.startsWith "h" then (parseNat? (t.drop 1).toString).map .header
+    else if t.startsWith "t" then (parseNat? (t.drop 1).toString).map .trailer
+    else none
+
+/-- The variables the options name, in order of first appearance. -/
+def coptVars (opts : List COpt) : List Nat :=
+  opts.foldl (fun acc o => match o with
+    | .header a => if acc.contains a then acc else acc ++ [a]
+    | .trailer a => if acc.contains a then acc else acc ++ [a]
+    | .other => acc) []
+
+def parsePark? (s : String) : Option (Option Nat) :=
+  if s = "h" then some none
+  else if s.startsWith "r" then (parseNat? (s.drop 1).toString).map some
+  else none
 
 def showHeader : Option (Option Tok) → String
   | none => "none"
@@ -335,17 +366,47 @@ def handle? (toks : List String) : Option String :=
     let (s, _) := run cfg St.init ops
     let (s', got) := get cfg s (unTilde name)
     pure (showWObs (routeWrapped encL got method req sh st cs reuse 998 ks) ++ " " ++ showSt s')
-  | ["wcall", method, req, sh, h, st, co] => do
+  | ["wcall", method, req, sh, h, st, co, opts] => do
     let method ← parseNat? method
     let req ← parseNat? req
     let sh ← parseOptTok? sh
     let h ← parseOptTok? h
     let st ← parseOptTok? st
     let co ← parseUOut? co
+    let opts ← parseCOpts? opts
     let ops := sh.toList.map HOp.setHeader ++ st.toList.map HOp.setTrailer ++ h.toList.map (fun x => HOp.sendHeader (some x))
-    let (out, hdr, tr) := invokeWrapped ops co
-    pure ("calls=1:" ++ toString method ++ ":" ++ toString req ++ " hdr=" ++ showMDList hdr ++ " tr=" ++ showMDList tr ++
+    let (out, mem) := invokeWrappedOpts ops co opts (fun _ => none)
+    pure ("calls=1:" ++ toString method ++ ":" ++ toString req ++
+      " vars=" ++ commaList ((coptVars opts).map fun a => toString a ++ ":" ++ (match mem a with | none => "-" | some l => showMDList l)) ++
       " out=" ++ showUOut out)
+  | ["wcallc", method, req, sh, h, st, opts, ce] => do
+    let method ← parseNat? method
+    let req ← parseNat? req
+    let sh ← parseOptTok? sh
+    let h ← parseOptTok? h
+    let st ← parseOptTok? st
+    let opts ← parseCOpts? opts
+    let ce ← parseNat? ce
+    let ops := sh.toList.map HOp.setHeader ++ st.toList.map HOp.setTrailer ++ h.toList.map (fun x => HOp.sendHeader (some x))
+    let (out, mem) := invokeCancelled ops ce opts (fun _ => none)
+    pure ("calls=1:" ++ toString method ++ ":" ++ toString req ++
+      " vars=" ++ commaList ((coptVars opts).map fun a => toString a ++ ":" ++ (match mem a with | none => "-" | some l => showMDList l)) ++
+      " out=" ++ showUOut out)
+  | ["wcancel", fb, fac, ops, name, method, req, sh, st, cs, reuse, park, ce] => do
+    let ce ← parseNat? ce
+    let cfg ← cfgOf fb fac
+    let ops ← parseOps? ops
+    let method ← parseNat? method
+    let req ← parseNat? req
+    let sh ← parseOptTok? sh
+    let st ← parseOptTok? st
+    let cs ← parseChild? cs
+    let park ← parsePark? park
+    let reuse ← (if reuse = "r" then some true else if reuse = "f" then some false else none)
+    if cs.openErr.isSome || cs.headerErr.isSome || (match park with | some k => k > cs.msgs.length | none => false) then none else
+    let (s, _) := run cfg St.init ops
+    let (s', got) := get cfg s (unTilde name)
+    pure (showCObs (routeCancelled encL got method req sh st cs park reuse 998 ce healthy) ++ " " ++ showSt s')
   | ["route", fb, fac, ops, name, method, req, "U", co] => do
     let cfg ← cfgOf fb fac
     let ops ← parseOps? ops
